@@ -404,6 +404,26 @@ partial def valOfJson (j : Json) : Except String Ex.Val :=
     | .error _ =>
     match j.getObjVal? "fn" with
     | .ok v => (v.getObjValAs? String "name").map Ex.Val.fn
+    | .error _ =>
+    match j.getObjVal? "tuple" with
+    | .ok v => do
+        let xs ← v.getObjValAs? (Array Json) "xs"
+        pure (.tuple (← xs.toList.mapM valOfJson))
+    | .error _ =>
+    match j.getObjVal? "set" with
+    | .ok v => do
+        let xs ← v.getObjValAs? (Array Json) "xs"
+        pure (.set (← xs.toList.mapM valOfJson))
+    | .error _ =>
+    match j.getObjVal? "dict" with
+    | .ok v => do
+        let ks ← v.getObjValAs? (Array Json) "ks"
+        let vs ← v.getObjValAs? (Array Json) "vs"
+        pure (.dict (← ks.toList.mapM valOfJson) (← vs.toList.mapM valOfJson))
+    | .error _ =>
+    match j.getObjVal? "slice" with
+    | .ok v => do
+        pure (.slice (← valOfJson (← v.getObjVal? "lo")) (← valOfJson (← v.getObjVal? "hi")) (← valOfJson (← v.getObjVal? "step")))
     | .error _ => .error s!"bad value {j.compress}"
 
 partial def valJson : Ex.Val → Json
@@ -414,6 +434,10 @@ partial def valJson : Ex.Val → Json
   | .list xs => Json.mkObj [("list", Json.mkObj [("xs", jArr (xs.map valJson))])]
   | .obj i => Json.mkObj [("obj", Json.mkObj [("id", jNat i)])]
   | .fn n => Json.mkObj [("fn", Json.mkObj [("name", jStr n)])]
+  | .tuple xs => Json.mkObj [("tuple", Json.mkObj [("xs", jArr (xs.map valJson))])]
+  | .set xs => Json.mkObj [("set", Json.mkObj [("xs", jArr (xs.map valJson))])]
+  | .dict ks vs => Json.mkObj [("dict", Json.mkObj [("ks", jArr (ks.map valJson)), ("vs", jArr (vs.map valJson))])]
+  | .slice a b c => Json.mkObj [("slice", Json.mkObj [("lo", valJson a), ("hi", valJson b), ("step", valJson c)])]
 
 partial def exprOfJson (j : Json) : Except String Expr := do
   let k ← j.getObjValAs? String "k"
@@ -441,6 +465,39 @@ partial def exprOfJson (j : Json) : Except String Expr := do
   | "ifexp" => do pure (.ifexp i (← sub "c") (← sub "t") (← sub "e"))
   | "display" => do pure (.display i (← subs "es"))
   | "comp" => do pure (.comp i ((← j.getObjValAs? (Array String) "targets").toList) (← subs "inner"))
+  | "starred" => do pure (.starred i (← sub "e"))
+  | "coll" => do
+      let kind ← j.getObjValAs? String "kind"
+      let ck : CollKind := if kind == "tuple" then .tuple else if kind == "set" then .set else .list
+      pure (.coll i ck (← subs "es"))
+  | "dict" => do
+      let items ← j.getObjValAs? (Array Json) "items"
+      let its ← items.toList.mapM (fun p => do
+        let a ← (fromJson? p : Except String (Array Json))
+        let key ← (if a[0]!.isNull then pure none else do pure (some (← exprOfJson a[0]!)))
+        pure (key, ← exprOfJson a[1]!))
+      pure (.dict i its)
+  | "slice" => do
+      let opt (f : String) : Except String (Option Expr) := do
+        match j.getObjVal? f with
+        | .ok v => if v.isNull then pure none else do pure (some (← exprOfJson v))
+        | .error _ => pure none
+      pure (.slice i (← opt "lo") (← opt "hi") (← opt "step"))
+  | "callkw" => do
+      let kws ← j.getObjValAs? (Array Json) "kws"
+      let ks ← kws.toList.mapM (fun p => do
+        let a ← (fromJson? p : Except String (Array Json))
+        let name ← (if a[0]!.isNull then pure none else do pure (some (← (fromJson? a[0]! : Except String String))))
+        pure (name, ← exprOfJson a[1]!))
+      pure (.callkw i (← sub "f") (← subs "args") ks)
+  | "fvalue" => do
+      let c ← j.getObjValAs? String "conv"
+      let cv : Conv := if c == "s" then .s else if c == "r" then .r else if c == "a" then .a else .none
+      let spec ← (match j.getObjVal? "spec" with
+        | .ok v => if v.isNull then pure none else do pure (some (← exprOfJson v))
+        | .error _ => pure none)
+      pure (.fvalue i (← sub "e") cv spec)
+  | "fstring" => do pure (.fstring i (← subs "parts"))
   | _ => .error s!"unknown expr kind {k}"
 
 def toInt? : Ex.Val → Option Int
@@ -454,6 +511,11 @@ partial def valEq : Ex.Val → Ex.Val → Bool
   | .list a, .list b => a.length == b.length && (a.zip b).all (fun p => valEq p.1 p.2)
   | .obj a, .obj b => a == b
   | .fn a, .fn b => a == b
+  | .tuple a, .tuple b => a.length == b.length && (a.zip b).all (fun p => valEq p.1 p.2)
+  | .set a, .set b => a.length == b.length && a.all (fun x => b.any (valEq x))
+  | .dict ka va, .dict kb vb =>
+      ka.length == kb.length && (ka.zip va).all (fun p => (kb.zip vb).any (fun q => valEq p.1 q.1 && valEq p.2 q.2))
+  | .slice a b c, .slice a' b' c' => valEq a a' && valEq b b' && valEq c c'
   | a, b => match toInt? a, toInt? b with | some x, some y => x == y | _, _ => false
 
 partial def valLt : Ex.Val → Ex.Val → Except Ex.Exc Bool
@@ -465,6 +527,7 @@ partial def valLt : Ex.Val → Ex.Val → Except Ex.Exc Bool
         | _ :: _, [] => .ok false
         | x :: xs, y :: ys => if valEq x y then go xs ys else valLt x y
       go a b
+  | .tuple a, .tuple b => valLt (.list a) (.list b)
   | a, b => match toInt? a, toInt? b with | some x, some y => .ok (x < y) | _, _ => .error "TypeError"
 
 def truthOf : Ex.Val → Bool
@@ -473,12 +536,119 @@ def truthOf : Ex.Val → Bool
   | .none => false
   | .str s => !s.isEmpty
   | .list xs => !xs.isEmpty
+  | .tuple xs => !xs.isEmpty
+  | .set xs => !xs.isEmpty
+  | .dict ks _ => !ks.isEmpty
   | _ => true
+
+partial def hashable : Ex.Val → Bool
+  | .list _ | .set _ | .dict _ _ | .slice _ _ _ => false
+  | .tuple xs => xs.all hashable
+  | _ => true
+
+/-- Python's `repr` for the values of the fragment (strings: only those that need no escaping) -/
+partial def pyRepr : Ex.Val → Except Ex.Exc String
+  | .int i => .ok (toString i)
+  | .bool b => .ok (if b then "True" else "False")
+  | .none => .ok "None"
+  | .str s =>
+      if s.toList.any (fun c => c == '\\' || c == '\'' || c.toNat < 32 || c.toNat > 126) then .error "NotImplemented"
+      else .ok ("'" ++ s ++ "'")
+  | .list xs => do let rs ← xs.mapM pyRepr; pure ("[" ++ ", ".intercalate rs ++ "]")
+  | .tuple [x] => do let r ← pyRepr x; pure ("(" ++ r ++ ",)")
+  | .tuple xs => do let rs ← xs.mapM pyRepr; pure ("(" ++ ", ".intercalate rs ++ ")")
+  | .dict ks vs => do
+      let rs ← (ks.zip vs).mapM (fun p => do pure ((← pyRepr p.1) ++ ": " ++ (← pyRepr p.2)))
+      pure ("{" ++ ", ".intercalate rs ++ "}")
+  | .set [] => .ok "set()"
+  | .set [x] => do let r ← pyRepr x; pure ("{" ++ r ++ "}")
+  | _ => .error "NotImplemented"
+
+def pyStr : Ex.Val → Except Ex.Exc String
+  | .str s => .ok s
+  | v => pyRepr v
+
+def padTo (s : String) (width : Nat) (align : Char) (fill : Char) : String :=
+  let n := s.length
+  if n ≥ width then s
+  else
+    let k := width - n
+    if align == '<' then s ++ String.ofList (List.replicate k fill)
+    else if align == '^' then String.ofList (List.replicate (k / 2) fill) ++ s ++ String.ofList (List.replicate (k - k / 2) fill)
+    else String.ofList (List.replicate k fill) ++ s
+
+/-- `format(v, spec)` for specs of the shape `[[fill]align][0][width][d|s]` -/
+def pyFormat (v : Ex.Val) (spec : String) : Except Ex.Exc String := do
+  let cs := spec.toList
+  let (fill, align, cs) := match cs with
+    | f :: a :: rest => if a == '<' || a == '>' || a == '^' then (some f, some a, rest)
+                        else if f == '<' || f == '>' || f == '^' then (none, some f, a :: rest) else (none, none, cs)
+    | [a] => if a == '<' || a == '>' || a == '^' then (none, some a, []) else (none, none, cs)
+    | [] => (none, none, [])
+  let (zero, cs) := match cs with
+    | '0' :: rest => (true, rest)
+    | _ => (false, cs)
+  let digits := cs.takeWhile Char.isDigit
+  let rest := cs.dropWhile Char.isDigit
+  let width := (String.mk digits).toNat?.getD 0
+  let isNum := match v with | .int _ => true | _ => false
+  let body ← (match rest, v with
+    | [], .int i => .ok (toString i)
+    | ['d'], .int i => .ok (toString i)
+    | [], .str s => .ok s
+    | ['s'], .str s => .ok s
+    | [], .bool b => if spec.isEmpty then .ok (if b then "True" else "False") else .error "NotImplemented"
+    | [], .none => if spec.isEmpty then .ok "None" else .error "TypeError"
+    | [], w => if spec.isEmpty then pyStr w else .error "TypeError"
+    | _, _ => .error "NotImplemented")
+  let negative := body.startsWith "-"
+  if zero && isNum && align.isNone then
+    if negative then pure ("-" ++ padTo (String.ofList (body.toList.drop 1)) (width - 1) '>' '0') else pure (padTo body width '>' '0')
+  else
+    let a := align.getD (if isNum then '>' else '<')
+    pure (padTo body width a (fill.getD ' '))
+
+def dictSetL (ks vs : List Ex.Val) (k v : Ex.Val) : List Ex.Val × List Ex.Val :=
+  if ks.any (valEq k) then (ks, (ks.zip vs).map (fun p => if valEq p.1 k then v else p.2))
+  else (ks ++ [k], vs ++ [v])
 
 def indexList (xs : List Ex.Val) (i : Int) : Except Ex.Exc Ex.Val :=
   let n : Int := xs.length
   let j := if i < 0 then i + n else i
   if j < 0 || j ≥ n then .error "IndexError" else .ok (xs.getD j.toNat .none)
+
+/-- Python's slicing of a sequence of length `n` (step 1 or a positive / negative step) -/
+def sliceIdx (n : Int) (lo hi step : Ex.Val) : Except Ex.Exc (List Nat) := do
+  let st ← (match step with | .none => .ok (1 : Int) | v => match toInt? v with | some 0 => .error "ValueError" | some k => .ok k | none => .error "TypeError")
+  let clamp (v : Ex.Val) (dflt : Int) (lowB highB : Int) : Except Ex.Exc Int :=
+    match v with
+    | .none => .ok dflt
+    | w => match toInt? w with
+      | some i => let j := if i < 0 then i + n else i
+                  .ok (if j < lowB then lowB else if j > highB then highB else j)
+      | none => .error "TypeError"
+  if st > 0 then do
+    let a ← clamp lo 0 0 n
+    let b ← clamp hi n 0 n
+    let cnt := if b > a then ((b - a + st - 1) / st).toNat else 0
+    pure ((List.range cnt).map (fun (k : Nat) => (a + st * (k : Int)).toNat))
+  else do
+    let a ← clamp lo (n - 1) (-1) (n - 1)
+    let b ← clamp hi (-1) (-1) (n - 1)
+    let cnt := if a > b then ((a - b + (-st) - 1) / (-st)).toNat else 0
+    pure ((List.range cnt).map (fun (k : Nat) => (a + st * (k : Int)).toNat))
+
+def iterOf : Ex.Val → Except Ex.Exc (List Ex.Val)
+  | .list xs => .ok xs
+  | .tuple xs => .ok xs
+  | .set xs => .ok xs
+  | .dict ks _ => .ok ks
+  | .str s => .ok (s.toList.map (fun c => Ex.Val.str (String.singleton c)))
+  | _ => .error "TypeError"
+
+def mkSetOf (xs : List Ex.Val) : Except Ex.Exc Ex.Val :=
+  if xs.all hashable then .ok (.set (xs.foldl (fun acc x => if acc.any (valEq x) then acc else acc ++ [x]) []))
+  else .error "TypeError"
 
 structure Tables where
   attrs : List (Nat × String × Ex.Val)
@@ -515,15 +685,31 @@ def concreteOps (t : Tables) : Ops where
     else if op == ">=" then (do let l ← valLt b a; pure (.bool (l || valEq a b)))
     else if op == "is" then .ok (.bool (match a, b with | .none, .none => true | .bool x, .bool y => x == y | _, _ => false))
     else if op == "is not" then .ok (.bool (!(match a, b with | .none, .none => true | .bool x, .bool y => x == y | _, _ => false)))
-    else if op == "in" then (match b with | .list xs => .ok (.bool (xs.any (valEq a))) | _ => .error "TypeError")
-    else if op == "not in" then (match b with | .list xs => .ok (.bool (!xs.any (valEq a))) | _ => .error "TypeError")
+    else if op == "in" then (match b with
+      | .list xs | .tuple xs | .set xs | .dict xs _ => .ok (.bool (xs.any (valEq a)))
+      | _ => .error "TypeError")
+    else if op == "not in" then (match b with
+      | .list xs | .tuple xs | .set xs | .dict xs _ => .ok (.bool (!xs.any (valEq a)))
+      | _ => .error "TypeError")
     else .error "NotImplemented"
   truth := fun v => .ok (truthOf v)
   attr := fun v a => match v with
     | .obj i => (match t.attrs.find? (fun p => p.1 == i && p.2.1 == a) with | some p => .ok p.2.2 | none => .error "AttributeError")
     | _ => .error "AttributeError"
-  subscr := fun v k => match v, toInt? k with
-    | .list xs, some i => indexList xs i
+  subscr := fun v k => match v, k with
+    | .list xs, .slice a b c => do let ix ← sliceIdx xs.length a b c; pure (.list (ix.map (fun i => xs.getD i .none)))
+    | .tuple xs, .slice a b c => do let ix ← sliceIdx xs.length a b c; pure (.tuple (ix.map (fun i => xs.getD i .none)))
+    | .str s, .slice a b c => do
+        let cs := s.toList
+        let ix ← sliceIdx cs.length a b c
+        pure (.str (String.ofList (ix.map (fun i => cs.getD i ' '))))
+    | .dict ks vs, key =>
+        if !hashable key then .error "TypeError"
+        else match (ks.zip vs).find? (fun p => valEq p.1 key) with
+          | some p => .ok p.2
+          | none => .error "KeyError"
+    | .list xs, key => (match toInt? key with | some i => indexList xs i | none => .error "TypeError")
+    | .tuple xs, key => (match toInt? key with | some i => indexList xs i | none => .error "TypeError")
     | _, _ => .error "TypeError"
   call := fun f args => match f, args with
     | .fn "len", [.list xs] => .ok (.int xs.length)
@@ -533,10 +719,94 @@ def concreteOps (t : Tables) : Ops where
     | .fn "min", [a, b] => (do let l ← valLt b a; pure (if l then b else a))
     | .fn "max", [a, b] => (do let l ← valLt a b; pure (if l then b else a))
     | .fn "sum", [.list xs] => (match xs.mapM toInt? with | some is => .ok (.int (is.foldl (· + ·) 0)) | none => .error "TypeError")
+    | .fn "sum", [.tuple xs] => (match xs.mapM toInt? with | some is => .ok (.int (is.foldl (· + ·) 0)) | none => .error "TypeError")
+    | .fn "len", [.tuple xs] => .ok (.int xs.length)
+    | .fn "len", [.set xs] => .ok (.int xs.length)
+    | .fn "len", [.dict ks _] => .ok (.int ks.length)
+    | .fn "list", [v] => (iterOf v).map Ex.Val.list
+    | .fn "tuple", [v] => (iterOf v).map Ex.Val.tuple
+    | .fn "sorted", [v] => (iterOf v).map (fun xs => Ex.Val.list (xs.mergeSort (fun a b => !(match valLt b a with | .ok r => r | .error _ => false))))
+    | .fn "set", [v] => do mkSetOf (← iterOf v)
+    | .fn "str", [v] => (pyStr v).map Ex.Val.str
+    | .fn "repr", [v] => (pyRepr v).map Ex.Val.str
+    | .fn "min", [a, b, c] => (do
+        let m ← (do let l ← valLt b a; pure (if l then b else a))
+        let l ← valLt c m; pure (if l then c else m))
+    | .fn "max", [a, b, c] => (do
+        let m ← (do let l ← valLt a b; pure (if l then b else a))
+        let l ← valLt m c; pure (if l then c else m))
     | _, _ => .error "NotImplemented"
   comp := fun i _ => match t.comps.find? (fun p => p.1 == i) with
     | some (_, some v) => .ok v
     | _ => .error "CompError"
+  mkSet := mkSetOf
+  iter := iterOf
+  dictEmpty := .dict [] []
+  dictSet := fun d k v => match d with
+    | .dict ks vs => if hashable k then (let r := dictSetL ks vs k v; .ok (.dict r.1 r.2)) else .error "TypeError"
+    | _ => .error "TypeError"
+  dictUpdate := fun d u => match d, u with
+    | .dict ks vs, .dict ks2 vs2 =>
+        let r := (ks2.zip vs2).foldl (fun acc p => dictSetL acc.1 acc.2 p.1 p.2) (ks, vs)
+        .ok (.dict r.1 r.2)
+    | _, _ => .error "TypeError"
+  kwItems := fun u => match u with
+    | .dict ks vs => (ks.zip vs).mapM (fun p => match p.1 with | .str s => .ok (s, p.2) | _ => (.error "TypeError" : Except Ex.Exc _))
+    | _ => .error "TypeError"
+  callkw := fun f args kws =>
+    let lt (rev : Bool) (a b : Ex.Val) : Bool := match (if rev then valLt b a else valLt a b) with | .ok r => r | .error _ => false
+    match f, args, kws with
+    | .fn "sorted", [v], [] => (iterOf v).map (fun xs => Ex.Val.list (xs.mergeSort (fun a b => !lt false b a)))
+    | .fn "sorted", [v], [("reverse", r)] =>
+        (iterOf v).map (fun xs => Ex.Val.list (xs.mergeSort (fun a b => !lt (truthOf r) b a)))
+    | .fn "max", [v], [("default", d)] => (do
+        let xs ← iterOf v
+        match xs with
+        | [] => pure d
+        | x :: rest => rest.foldlM (fun m y => do let l ← valLt m y; pure (if l then y else m)) x)
+    | .fn "min", [v], [("default", d)] => (do
+        let xs ← iterOf v
+        match xs with
+        | [] => pure d
+        | x :: rest => rest.foldlM (fun m y => do let l ← valLt y m; pure (if l then y else m)) x)
+    | .fn "sum", [v], [("start", s0)] => (do
+        let xs ← iterOf v
+        match (s0 :: xs).mapM toInt? with | some is => pure (.int (is.foldl (· + ·) 0)) | none => .error "TypeError")
+    | .fn "dict", [], kvs => .ok (.dict (kvs.map (fun p => Ex.Val.str p.1)) (kvs.map (·.2)))
+    | .fn "dict", [.dict ks vs], kvs =>
+        let r := kvs.foldl (fun acc p => dictSetL acc.1 acc.2 (.str p.1) p.2) (ks, vs)
+        .ok (.dict r.1 r.2)
+    | fv, as, [] => (match fv, as with
+        | .fn "len", [.list xs] => .ok (.int xs.length)
+        | .fn "len", [.tuple xs] => .ok (.int xs.length)
+        | .fn "len", [.str s] => .ok (.int s.length)
+        | .fn "min", [a, b] => (do let l ← valLt b a; pure (if l then b else a))
+        | .fn "max", [a, b] => (do let l ← valLt a b; pure (if l then b else a))
+        | .fn "min", [a, b, c] => (do
+            let m ← (do let l ← valLt b a; pure (if l then b else a))
+            let l ← valLt c m; pure (if l then c else m))
+        | .fn "max", [a, b, c] => (do
+            let m ← (do let l ← valLt a b; pure (if l then b else a))
+            let l ← valLt m c; pure (if l then c else m))
+        | .fn "sum", [v] => (do
+            let xs ← iterOf v
+            match xs.mapM toInt? with | some is => pure (.int (is.foldl (· + ·) 0)) | none => .error "TypeError")
+        | .fn "list", [v] => (iterOf v).map Ex.Val.list
+        | .fn "tuple", [v] => (iterOf v).map Ex.Val.tuple
+        | _, _ => .error "NotImplemented")
+    | _, _, _ => .error "NotImplemented"
+  format := fun v conv spec => do
+    let v' ← (match conv with
+      | .none => pure v
+      | .s => (pyStr v).map Ex.Val.str
+      | .r => (pyRepr v).map Ex.Val.str
+      | .a => (pyRepr v).map Ex.Val.str)
+    let sp ← (match spec with
+      | none => pure ""
+      | some (.str s) => pure s
+      | some _ => .error "TypeError")
+    (pyFormat v' sp).map Ex.Val.str
+  join := fun parts => (parts.mapM (fun (p : Ex.Val) => match p with | Ex.Val.str s => (.ok s : Except Ex.Exc String) | _ => .error "TypeError")).map (fun ss => Ex.Val.str (String.join ss))
 
 structure ExprCase where
   expr : Json
